@@ -3,6 +3,8 @@ package main
 // Translation of specification expressions to SMT terms, relative to a symbolic state.
 
 import (
+	"os"
+	"runtime/debug"
 	"fmt"
 	"go/constant"
 	"go/token"
@@ -49,6 +51,9 @@ func (env *SpecEnv) bind(name string, v Val) *SpecEnv {
 type specError struct{ msg string }
 
 func (e *Engine) specFail(env *SpecEnv, msg string) {
+	if os.Getenv("GOVC_DEBUG_SPEC") != "" {
+		debug.PrintStack()
+	}
 	panic(specError{msg})
 }
 
